@@ -31,6 +31,9 @@ _SYNONYM = {
     "numpy.row_stack": "numpy.vstack",
 }
 
+_CMP_FUNCS = {"operator.lt": "<", "operator.le": "<=", "operator.gt": ">", "operator.ge": ">=", "operator.eq": "==",
+              "numpy.less": "<", "numpy.less_equal": "<=", "numpy.greater": ">", "numpy.greater_equal": ">="}
+
 MAX_DEPTH = 14
 
 
@@ -68,6 +71,63 @@ def flat_alts(t):
     if t[0] == "ifexp":
         return flat_alts(t[2]) | flat_alts(t[3])
     return {t}
+
+
+def guarded_alts(t, limit=24):
+    """[(literals, term)]: guarded alternatives (gphi keys, conditional expressions) pushed outward through
+    the operators that contain them, so that a value assembled after a branch reads like one assembled inside it."""
+    from .guards import literals as _lits
+
+    def rec(t, depth):
+        if not isinstance(t, tuple) or not t or not isinstance(t[0], str) or depth > 12:
+            return [((), t)]
+        tag = t[0]
+        if tag == "gphi":
+            out = []
+            for k, v in sorted(t[1], key=repr):
+                for k2, v2 in rec(v, depth + 1):
+                    out.append((tuple(k) + k2, v2))
+            return out
+        if tag == "ifexp":
+            out = []
+            for k2, v2 in rec(t[2], depth + 1):
+                out.append((tuple(_lits(t[1], True)) + k2, v2))
+            for k2, v2 in rec(t[3], depth + 1):
+                out.append((tuple(_lits(t[1], False)) + k2, v2))
+            return out
+        if tag in ("const", "param", "self", "global", "local", "func", "unknown", "idx", "phi", "comp", "dict", "fstr"):
+            return [((), t)]
+        # product over the direct children that are terms
+        slots = []
+        for i, x in enumerate(t):
+            if i == 0:
+                slots.append([((), x)])
+            elif isinstance(x, tuple) and x and isinstance(x[0], str):
+                slots.append(rec(x, depth + 1))
+            elif isinstance(x, tuple) and tag in ("call", "tuple", "list", "cols", "and", "or") and all(isinstance(y, tuple) and y and isinstance(y[0], str) for y in x):
+                inner = [[]]
+                for y in x:
+                    ys = rec(y, depth + 1)
+                    inner = [a + [b] for a in inner for b in ys][:limit]
+                slots.append([(sum((k for k, _ in a), ()), tuple(v for _, v in a)) for a in inner])
+            else:
+                slots.append([((), x)])
+        combos = [((), [])]
+        for sl in slots:
+            combos = [(k + k2, vs + [v]) for k, vs in combos for k2, v in sl][:limit]
+        out = []
+        for k, vs in combos:
+            # drop contradictory combinations (a literal together with its negation)
+            ks = set(k)
+            if any(("not", l) in ks for l in ks):
+                continue
+            tt = tuple(vs)
+            if tt[0] in ("sub", "attr", "call", "item", "col"):
+                tt = recanon(tt)
+            out.append((tuple(dict.fromkeys(k)), tt))
+        return out or [((), t)]
+
+    return rec(t, 0)
 
 
 def strip_none(t):
@@ -242,6 +302,10 @@ def canon_sub(base, idx):
                 return v
     if base[0] == "cols" and idx[0] == "tuple" and len(idx[1]) == 2 and idx[1][0] == FULL:
         return canon_col(base, idx[1][1])
+    # list(zip(A, B))[i] / zip(A, B)[i]  ->  (A[i], B[i])
+    zt = base[2][0] if (base[0] == "call" and base[1] == G("list") and len(base[2]) == 1 and not base[3]) else base
+    if zt[0] == "call" and zt[1] == G("zip") and not zt[3] and zt[2] and not is_slice(idx) and idx[0] != "tuple" and not any(a[0] == "star" for a in zt[2]):
+        return ("tuple", tuple(canon_sub(a, idx) for a in zt[2]))
     # [f(d) for d in range(n)][k]  ->  f(k)
     if (base[0] == "comp" and base[1] == "list" and base[5] == () and base[4][0] == "call"
             and base[4][1] == G("range") and not is_slice(idx) and idx[0] != "tuple"):
@@ -310,6 +374,8 @@ def canon_call(func, args, kws):
             return ("cols", items)
     if func == G("numpy.transpose") and len(args) == 1 and not kws:
         return canon_attr(args[0], "T")
+    if func[0] == "global" and func[1] in _CMP_FUNCS and len(args) == 2 and not kws:
+        return ("cmp", _CMP_FUNCS[func[1]], args[0], args[1])
     # expand *tuple
     if any(a[0] == "star" for a in args):
         new = []
@@ -413,6 +479,7 @@ class TermBuilder:
         self._parent_builder = None
         self.guarded = False
         self.shallow = False
+        self.no_inline = frozenset()
         self._pcs = None
         self._pc_busy = False
 
@@ -832,7 +899,7 @@ class TermBuilder:
     def inline_call(self, callee, recv, args, kws):
         """Look through a repo function that has exactly one ``return`` and no loop:
         its return term with the formals replaced by the actual arguments."""
-        if len(self._call_stack) > 6 or callee.qualname in self._call_stack:
+        if len(self._call_stack) > 6 or callee.qualname in self._call_stack or callee.qualname in self.no_inline or callee.name in self.no_inline:
             return None
         node = callee.node
         if isinstance(node, ast.Lambda):
@@ -868,6 +935,7 @@ class TermBuilder:
                 return None
         sub = TermBuilder(self.prog, callee, self.self_cls if recv == SELF else callee.cls, True, self.depth,
                           _stack=self._call_stack + (callee.qualname,))
+        sub.no_inline = self.no_inline
         # defaults
         for p, dnode in callee.defaults().items():
             if p not in bind:
@@ -954,12 +1022,13 @@ def neg_test(t):
 _builders = {}
 
 
-def builder(prog, fn, self_cls=None, inline=True, guarded=False, shallow=False):
-    key = (id(prog), fn.qualname, self_cls.qualname if self_cls else None, inline, guarded, shallow)
+def builder(prog, fn, self_cls=None, inline=True, guarded=False, shallow=False, no_inline=()):
+    key = (id(prog), fn.qualname, self_cls.qualname if self_cls else None, inline, guarded, shallow, tuple(sorted(no_inline)))
     if key not in _builders:
         _builders[key] = TermBuilder(prog, fn, self_cls, inline)
         _builders[key].guarded = guarded
         _builders[key].shallow = shallow
+        _builders[key].no_inline = frozenset(no_inline)
     return _builders[key]
 
 
